@@ -137,7 +137,6 @@ type Exec struct {
 	quiet            bool // suppress side obligations (inlined callee bodies, contract evaluation)
 	inputs           []modelReq
 	stack            []string
-	binders          int
 	nameCount        map[string]int
 	pureTyped        map[string]bool
 	idxStack         []*types.Var
@@ -233,7 +232,7 @@ func (e *Exec) relLine(pos token.Pos) string {
 
 func (e *Exec) newPC(st *State, cond Term) Term {
 	c := And(st.pc, cond)
-	if c.S == "true" || c.S == "false" || len(c.S) < 40 || e.binders > 0 {
+	if c.S == "true" || c.S == "false" || len(c.S) < 40 || e.sc.binders > 0 {
 		return c
 	}
 	pc := e.sc.Fresh("pc", SBool)
@@ -288,7 +287,7 @@ func (e *Exec) mergeVal(c Term, a, b Val, hint string) Val {
 		return a
 	}
 	t := Ite(c, a.T, b.T)
-	if len(t.S) > 60 && e.binders == 0 {
+	if len(t.S) > 60 && e.sc.binders == 0 {
 		f := e.sc.Fresh(hint, a.T.Sort)
 		e.sc.Assert(Eq(f, t))
 		t = f
@@ -370,7 +369,7 @@ func (e *Exec) merge2(a, b *State) *State {
 		}
 	}
 	pc := Or(a.pc, b.pc)
-	if len(pc.S) > 40 && e.binders == 0 {
+	if len(pc.S) > 40 && e.sc.binders == 0 {
 		f := e.sc.Fresh("pcj", SBool)
 		e.sc.Assert(Eq(f, pc))
 		pc = f
@@ -447,7 +446,7 @@ func (e *Exec) heapRead(st *State, name, sort string) Term {
 	if st.specHeaps != nil {
 		return e.specHeapRead(st, name, sort)
 	}
-	if h, ok := st.heaps[name]; ok && len(h.S) > 1500 && e.binders == 0 {
+	if h, ok := st.heaps[name]; ok && len(h.S) > 1500 && e.sc.binders == 0 {
 		// keep heap terms small: name long store chains
 		nm := e.sc.Fresh("hp", h.Sort)
 		e.sc.Assert(Eq(nm, h))
@@ -991,7 +990,7 @@ func (e *Exec) evMulti(st *State, x ast.Expr, n int) []Val {
 // named keeps the terms solvers see small (and usable in quantifier patterns): a large value bound to a
 // variable is given a name.
 func (e *Exec) named(v Val, hint string) Val {
-	if len(v.T.S) > 200 && e.binders == 0 && v.Tuple == nil && v.T.Sort != "" {
+	if len(v.T.S) > 200 && e.sc.binders == 0 && v.Tuple == nil && v.T.Sort != "" {
 		nm := e.sc.Fresh("v_"+hint, v.T.Sort)
 		e.sc.Assert(Eq(nm, v.T))
 		v.T = nm
@@ -1093,7 +1092,7 @@ func (e *Exec) updatePath(st *State, base Val, path []int, v Val, pos token.Pos)
 	f := stt.Field(idx)
 	// a field update mentions the old value once per field: name large values first or terms grow
 	// exponentially with the number of updates
-	if len(base.T.S) > 120 && e.binders == 0 {
+	if len(base.T.S) > 120 && e.sc.binders == 0 {
 		nm := e.sc.Fresh("sv", base.T.Sort)
 		e.sc.Assert(Eq(nm, base.T))
 		base = Val{T: nm, GT: base.GT, Orig: base.Orig}
@@ -1215,7 +1214,8 @@ func (e *Exec) assignedIn(nodes ...ast.Node) (map[types.Object]bool, bool) {
 							if e.heapSorts == nil {
 								e.heapSorts = map[string]string{}
 							}
-							e.lastHeapNames[n+"\x00"+id.Name] = true
+							// ... and of that cell only the field named (when the pointee is a modelled struct)
+							e.lastHeapNames[n+"\x00"+id.Name+"\x00"+y.Sel.Name] = true
 							e.heapSorts[n] = s
 							return
 						}
@@ -1320,8 +1320,8 @@ func (e *Exec) assignedIn(nodes ...ast.Node) (map[types.Object]bool, bool) {
 	}
 	// a cell named by a variable that is itself reassigned in this code is not a fixed cell: widen to the heap
 	for key := range e.lastHeapNames {
-		parts := strings.SplitN(key, "\x00", 2)
-		if len(parts) != 2 || parts[1] == "" {
+		parts := strings.SplitN(key, "\x00", 3)
+		if len(parts) < 2 || parts[1] == "" {
 			continue
 		}
 		for o := range out {
@@ -1536,7 +1536,7 @@ func (e *Exec) havocVars(st *State, assigned map[types.Object]bool, heapW bool, 
 		// keys are "<heap>\x00<variable>": only the cell the variable refers to is havocked
 		resolve := e.loopEnv(st, e.pendingPos, nil).resolve
 		for _, key := range sortedKeys(names) {
-			parts := strings.SplitN(key, "\x00", 2)
+			parts := strings.SplitN(key, "\x00", 3)
 			k := parts[0]
 			srt := e.heapSorts[k]
 			if h, ok := st.heaps[k]; ok {
@@ -1545,8 +1545,19 @@ func (e *Exec) havocVars(st *State, assigned map[types.Object]bool, heapW bool, 
 			if srt == "" {
 				continue
 			}
-			if len(parts) == 2 {
+			if len(parts) >= 2 {
 				if v, ok := resolve(parts[1], st); ok && v.T.Sort == SInt {
+					if len(parts) == 3 {
+						// only one field of the cell is written in the loop
+						if si := e.sr.structInfoOf(arrayValSort(srt)); si != nil {
+							if fi, f := si.field(parts[2]); f != nil {
+								old := Select(e.heapRead(st, k, srt), v.T)
+								fresh := e.sc.Fresh("field_"+parts[1]+"_"+parts[2], f.Sort)
+								st.heaps[k] = Store(e.heapRead(st, k, srt), v.T, si.set(old, fi, fresh))
+								continue
+							}
+						}
+					}
 					cell := e.sc.Fresh("cell_"+parts[1], arrayValSort(srt))
 					st.heaps[k] = Store(e.heapRead(st, k, srt), v.T, cell)
 					continue
